@@ -28,8 +28,16 @@ func init() {
 type c18size struct {
 	acct  []int // per track: emitted units already accounted
 	cutsN int
-	raw   uint64 // payload bytes of the open segment, smaller accounting (NALU / access unit bytes)
-	big   uint64 // larger accounting (container sample bytes: 4-byte length prefix per NALU in fMP4)
+	// per stream (MPEG-TS: one stream holds every track; fMP4 variants: one stream, hence one segment, per track):
+	raw []uint64 // payload bytes of the open segment, smaller accounting (NALU / access unit bytes)
+	big []uint64 // larger accounting (container sample bytes: 4-byte length prefix per NALU in fMP4)
+}
+
+func c18StreamOf(cfg muxCfg, track int) int {
+	if cfg.Variant == "mpegts" {
+		return 0
+	}
+	return track
 }
 
 func unitSizes(cfg muxCfg, track int, data [][]byte) (raw, big uint64) {
@@ -47,6 +55,8 @@ func (s *c18size) hook(r *e1run, ok bool) {
 	m := r.model
 	if s.acct == nil {
 		s.acct = make([]int, len(m.emitted))
+		s.raw = make([]uint64, len(m.emitted))
+		s.big = make([]uint64, len(m.emitted))
 	}
 	limit := r.cfg.MaxSize
 	if !ok {
@@ -56,7 +66,7 @@ func (s *c18size) hook(r *e1run, ok bool) {
 		// which unit was being accounted when the write failed?
 		u := r.ops[len(r.ops)-1]
 		var raw, big uint64
-		segBig := s.big
+		segBig := s.big[c18StreamOf(r.cfg, u.Track)]
 		if r.cfg.Variant == "mpegts" {
 			var data [][]byte
 			if r.cfg.Tracks[u.Track].video() {
@@ -106,20 +116,22 @@ func (s *c18size) hook(r *e1run, ok bool) {
 		for t := range s.acct {
 			for s.acct[t] < c.counts[t] {
 				ra, bg := unitSizes(r.cfg, t, m.emitted[t][s.acct[t]].data)
-				s.raw += ra
-				s.big += bg
+				s.raw[c18StreamOf(r.cfg, t)] += ra
+				s.big[c18StreamOf(r.cfg, t)] += bg
 				s.acct[t]++
 			}
 		}
 		s.check(r, limit)
-		s.raw, s.big = 0, 0
+		for i := range s.raw {
+			s.raw[i], s.big[i] = 0, 0
+		}
 		s.cutsN++
 	}
 	for t := range s.acct {
 		for s.acct[t] < len(m.emitted[t]) {
 			ra, bg := unitSizes(r.cfg, t, m.emitted[t][s.acct[t]].data)
-			s.raw += ra
-			s.big += bg
+			s.raw[c18StreamOf(r.cfg, t)] += ra
+			s.big[c18StreamOf(r.cfg, t)] += bg
 			s.acct[t]++
 		}
 	}
@@ -127,8 +139,10 @@ func (s *c18size) hook(r *e1run, ok bool) {
 }
 
 func (s *c18size) check(r *e1run, limit uint64) {
-	if s.raw > limit {
-		r.add("C18", "size-limit-exceeded", "after write %d a segment holds %d bytes of media payload (NALU / access-unit bytes), SegmentMaxSize is %d, and no Write has failed; ops %s", len(r.ops)-1, s.raw, limit, r.opsString())
+	for si, raw := range s.raw {
+		if raw > limit {
+			r.add("C18", "size-limit-exceeded", "after write %d a segment of stream %d holds %d bytes of media payload (NALU / access-unit bytes), SegmentMaxSize is %d, and no Write has failed; ops %s", len(r.ops)-1, si, raw, limit, r.opsString())
+		}
 	}
 }
 
@@ -224,6 +238,19 @@ func c18Scens(tier string) []e1Scen {
 			cfg.MaxSize = uint64(lim)
 			alpha := []sym{{T: 0, D: "f", K: "n"}, {T: 0, D: "f", K: "n", Sz: 1}, {T: 0, D: "f", K: "n", Sz: 3}, {T: 0, D: "S", K: "R"}, {T: 0, D: "f", K: "r"}}
 			out = append(out, e1Scen{Prop: "C18", Cfg: cfg, Alpha: alpha, Depth: depth, Mode: "tree", Pre: 0, Name: fmt.Sprintf("size-tree-%d", lim), Start: 0, Query: "", Period: 1})
+		}
+		// video + audio: the bytes of every track count towards the limit
+		for lim := 40; lim <= 60; lim += 2 {
+			if tier != "thorough" && lim%4 != 0 {
+				continue
+			}
+			cfg := mcfg(variant, false, 3, "h264", "aac44")
+			if variant == "ll" {
+				cfg.SegCount = 7
+			}
+			cfg.MaxSize = uint64(lim)
+			alpha := []sym{{T: 0, D: "f", K: "n"}, {T: 1, D: "c", N: 1}, {T: 1, D: "c", N: 2}, {T: 1, D: "c", N: 1, Sz: 1}, {T: 0, D: "S", K: "R"}}
+			out = append(out, e1Scen{Prop: "C18", Cfg: cfg, Alpha: alpha, Depth: depth, Mode: "tree", Name: fmt.Sprintf("size-tree-av-%d", lim), Period: 1})
 		}
 		// audio-only
 		for lim := 10; lim <= 16; lim++ {
